@@ -144,11 +144,15 @@ def set_owner_process(uid, gid, initgroups=False):
         try:
             username = get_username(uid)
         except KeyError:
-            initgroups = False
+            # no passwd entry, so no group can list this user as a member:
+            # its group access list is just the given group
+            username = None
 
     # initgroups() only sets the supplementary groups; it is also needed
     # when the group is left as it is (gid 0: only the user is configured)
-    if initgroups:
+    if initgroups and username is None:
+        os.setgroups([gid])
+    elif initgroups:
         os.initgroups(username, gid)
 
     if gid and gid != os.getgid():
